@@ -282,7 +282,7 @@ theorem zip_snd_sublist (a : List ScOut) (b : List Id) : ((a.zip b).map (·.2)).
     | nil => simp
     | cons y b =>
       simp only [List.zip_cons_cons, List.map_cons]
-      exact (ih b).cons₂ y
+      exact (ih b).cons_cons y
 
 theorem Fresh.zip_prefix {T ms R} (a : List ScOut) (b : List Id)
     (h : Fresh T ms (b.map (fun i => (Kind.sc, i)) ++ R)) :
